@@ -305,6 +305,19 @@ class Classifier(object):
     def is_comment_list(self, name, func):
         """All appends into local list `name` inside func add comment text."""
         verdicts = []
+        # lists filled through update_code_blocks(locals(), stmts, fmt): symtab[clause + "_code"] receives the
+        # clause lines of the statement tables, i.e. generated code
+        if name.endswith("_code") and any(isinstance(c, ast.Call) and (pyflow.call_name(c) or "").endswith("update_code_blocks")
+                                          and c.args and isinstance(c.args[0], ast.Call) and pyflow.is_name(c.args[0].func, "locals")
+                                          for c in ast.walk(func)):
+            try:
+                ucb = self.mod.func("update_code_blocks")
+            except Exception:
+                ucb = None
+            if ucb is not None:
+                clauses = set(pyflow.const_str(e) for l in ast.walk(ucb) if isinstance(l, ast.List) for e in l.elts)
+                if name[:-5] in clauses:
+                    return False
         for node in ast.walk(func):
             if isinstance(node, ast.Call) and isinstance(node.func, ast.Attribute) and \
                     pyflow.is_name(node.func.value, name) and node.func.attr in ("append", "extend"):
@@ -543,6 +556,34 @@ def run(repo, run, tier):
                           "Shroud <version>` header line", m.loc(node),
                           sample=dict(where="%s.%s" % (m.name, q)))
     run.floor(R3, "write_version reads", n3, 3)
+    # multi-line documentation text: every physical line carries the comment leader
+    um = repo.module("util")
+    wd = um.func("WrapperMixin.write_doxygen")
+    blocks = [n for n in ast.walk(wd) if isinstance(n, ast.If) and isinstance(n.test, ast.Compare)
+              and pyflow.const_str(n.test.left) == "description"]
+    if len(blocks) != 1:
+        raise AnalysisError("C16.R1: description block of write_doxygen not found")
+    blk = blocks[0]
+    whole = set()
+    for a in ast.walk(blk):
+        if isinstance(a, ast.Assign) and isinstance(a.targets[0], ast.Name):
+            src = um.seg(a.value)
+            if ("docs['description']" in src or any(w in [x.id for x in ast.walk(a.value) if isinstance(x, ast.Name)] for w in whole)) \
+                    and ".split(" not in src:
+                whole.add(a.targets[0].id)
+    bad = []
+    for c in ast.walk(blk):
+        if isinstance(c, ast.Call) and isinstance(c.func, ast.Attribute) and c.func.attr in ("append", "extend") and c.args:
+            arg = c.args[0]
+            names = set(x.id for x in ast.walk(arg) if isinstance(x, ast.Name))
+            in_lines_loop = any(isinstance(p_, ast.For) for p_ in parent_chain(c) if p_ is not blk)
+            if ("docs['description']" in um.seg(arg) or names & whole) and not (
+                    isinstance(arg, ast.BinOp) and in_lines_loop and not (names & whole)):
+                # exception: `lines = [desc]` when the text has no trailing newline is a one-line description
+                bad.append(um.seg(c))
+    run.check(R1, "util.WrapperMixin.write_doxygen:description-lines", not bad,
+              "the description (a multi-line block) is emitted as one string (%s): only its first line gets the comment "
+              "leader, the following lines become statements of the generated file" % bad[:1], um.loc(blk))
     run.assumptions.append("comment leaders: // /* * for the C family, ! for Fortran, self.comment / "
                            "self.doxygen_* attributes, cstart/cend/fstart/fend constants")
 
